@@ -86,10 +86,10 @@ PROPS["C14"] = {
 PROPS["C03"] = {
     "gen": ["Stage", "Pyramid"],
     "trusted_base": ["the multiprocessing model of DESIGN.md §3 (Queue = buffer→feeder→pipe with one reader lock and a bounded semaphore; a get times out only when it cannot take the lock or the pipe is empty; Event = atomic flag; join returns after the target returned) — vf/simmp.py implements exactly this and the Lean model has one transition per simmp step",
-                     "liveness is proved in the form `from every reachable state some continuation returns` (Props/C03Live: no deadlock, termination never becomes impossible); that a *fair* scheduler takes such a continuation is the usual fairness argument, not formalised; hangs of the real code are detected by the simulator"],
+                     "liveness is proved in the form `from every reachable state some continuation returns` (Props/C03Live: no deadlock, termination never becomes impossible); and (Props/C03Bound: `effective_steps_bounded`, `only_polling_can_repeat`) in ANY execution at most 4·|items|+4·n+5 transitions are not steps of a worker's polling loop, so the only infinite executions are those that poll for ever while a useful transition stays possible; that a *fair* scheduler excludes exactly those is the remaining, unformalised step; hangs of the real code are detected by the simulator"],
     "assumptions": COMMON_ASSUME + ["callbacks do not raise (C19 covers failures)"],
     "partial": "",
-    "props_files": ["C03", "C03Live"],
+    "props_files": ["C03", "C03Live", "C03Bound"],
 }
 
 PROPS["C10"] = {
@@ -215,12 +215,12 @@ LEVEL_TEXT = {
         "technique": "Lean 4 proof (inductive invariants over all interleavings, progress measure) + trace refinement checked by execution",
     },
     "C10": {
-        "text": "The shape of update_image (lock wraps read → yield → write and nothing else; lock path from the default-format tile path; one format for read and write) is re-extracted each run. A transition system with one transition per lock/read/write step is proved, for any number of updaters and every interleaving, to keep an 8-clause invariant; corollaries: when all updaters are done the tile is stable and holds every contribution exactly once in lock-acquisition order (serialisability), no read ever observes a partially written tile, at most one updater is inside the region; and (Props/C10Live, updates_can_finish) from every reachable state some continuation lets every updater finish — the locked region never deadlocks. The real update_image runs under a deterministic scheduler (random and bounded-exhaustive schedules, 2-4 updaters) with traced reads/writes; traces are replayed through the Lean model and the final tile content is checked; a real-process stress run.",
+        "text": "The shape of update_image (lock wraps read → yield → write and nothing else; lock path from the default-format tile path; one format for read and write) is re-extracted each run. A transition system with one transition per lock/read/write step is proved, for any number of updaters and every interleaving, to keep an 8-clause invariant; corollaries: when all updaters are done the tile is stable and holds every contribution exactly once in lock-acquisition order (serialisability), no read ever observes a partially written tile, at most one updater is inside the region; and (Props/C10Live, updates_can_finish) from every reachable state some continuation lets every updater finish — the locked region never deadlocks — and (every_execution_terminates) the model has no transition that does not advance an updater, so EVERY execution, fair or not, is at most 6·n transitions long and one that cannot be extended has all updaters done with the serialisable result. The real update_image runs under a deterministic scheduler (random and bounded-exhaustive schedules, 2-4 updaters) with traced reads/writes; traces are replayed through the Lean model and the final tile content is checked; a real-process stress run.",
         "note": "trusted: Lean kernel; the lock/file semantics of DESIGN.md §3; simmp; fact extraction.",
         "technique": "Lean 4 proof (inductive invariant over all interleavings) + trace refinement checked by execution",
     },
     "C03": {
-        "text": "The producer statement order, queue capacities and the workers' shutdown test are re-extracted from the four stage implementations each run. A transition system with one transition per multiprocessing primitive models producer, feeder and n workers; a 14-clause invariant is proved inductive for every number of workers, capacity, item list and interleaving (time-outs firing whenever a receive is impossible). Corollaries: no item is processed more often than produced (exactly-one worker for distinct items); when the producer has returned all workers have exited, queue and buffers are empty and the processed items are a permutation of the produced ones. The original step order (flag read after an empty poll) is refuted by an 11-step witness. Liveness (Props/C03Live): with a second invariant and a lexicographic measure (item positions, producer counter, worker distances) every non-returned reachable state has an enabled transition that decreases the measure, hence a continuation that returns (`stage_progress`). The real visit_leaves / transform / multi_tan / multi_wcs run under a deterministic scheduler (random, biased, and bounded-exhaustive schedules) and every trace is replayed through the Lean transition function; real-process smoke runs.",
+        "text": "The producer statement order, queue capacities and the workers' shutdown test are re-extracted from the four stage implementations each run. A transition system with one transition per multiprocessing primitive models producer, feeder and n workers; a 14-clause invariant is proved inductive for every number of workers, capacity, item list and interleaving (time-outs firing whenever a receive is impossible). Corollaries: no item is processed more often than produced (exactly-one worker for distinct items); when the producer has returned all workers have exited, queue and buffers are empty and the processed items are a permutation of the produced ones. The original step order (flag read after an empty poll) is refuted by an 11-step witness. Liveness (Props/C03Live): with a second invariant and a lexicographic measure (item positions, producer counter, worker distances) every non-returned reachable state has an enabled transition that decreases the measure, hence a continuation that returns (`stage_progress`); a potential function that no transition increases and every non-polling transition decreases bounds the number of non-polling transitions of any execution by 4·|items|+4·n+5 (Props/C03Bound). The real visit_leaves / transform / multi_tan / multi_wcs run under a deterministic scheduler (random, biased, and bounded-exhaustive schedules) and every trace is replayed through the Lean transition function; real-process smoke runs.",
         "note": "trusted: Lean kernel; the multiprocessing semantics stated in DESIGN.md; simmp; fact extraction from the stage sources.",
         "technique": "Lean 4 proof (inductive invariant over all interleavings) + trace refinement checked by execution",
     },
